@@ -33,10 +33,10 @@ abbrev EF : Facts := Expected.C05.facts
 
 abbrev OF : Facts := Expected.C05.oldFacts
 
-/-- the values of the selector facts since 4f1c6ee, 837b81e, efcbde2, a60b058 -/
+/-- the values of the selector facts since 4f1c6ee, 837b81e, efcbde2, a60b058, 43e97a5 -/
 def selFacts (F : Facts) : Prop :=
   F.methodPick = .shallowest ∧ F.methodAmbiguityCheck = true ∧ F.fieldLoopEmbedOnly = true ∧
-  F.fieldPick = .shallowest ∧ F.fieldDepthMinus = 1
+  F.fieldPick = .shallowest ∧ F.fieldDepthMinus = 1 ∧ F.fieldAmbiguityCheck = true
 
 instance (F : Facts) : Decidable (selFacts F) := by unfold selFacts; infer_instance
 
@@ -131,28 +131,28 @@ example :
 
 /-! ### the selector case: field or method -/
 
-/-- **Selector resolution agrees with the Go specification** (`x.f` denotes the field or method at
-    the shallowest depth, which must be unique; otherwise the selector is illegal) on the decidable
-    domain `selDom`: not (several *fields* at the shallowest depth with no method at that depth or
-    above — finding F05-17, the only case left). Methods against methods, fields against methods,
-    promotion through embedded fields only, ambiguity rejection: all declaration sets, all types, all
-    names, for every fact value satisfying `selFacts` (F04, F05-1, F05-2, F05-3 repaired). -/
-theorem select_eq_spec_partial (F : Facts) (hF : selFacts F) (D : Decls) (t : Nat) (x : String)
-    (h : selDom D t x = true) : selectY F D t x = select D t x := by
-  obtain ⟨hP, hA, hE, hFP, hK⟩ := hF
+/-- **`fieldCount(name, d)` counts the fields of that name at depth `d`** -/
+theorem fieldCount_is_count (D : Decls) (t : Nat) (x : String) (d : Nat) (hd : d < D.length) :
+    fieldCountY D d t x = countAt d ((focc D t x).map FHit.depth) := fieldCountY_eq D x D.length d t hd
+
+/-- **Selector resolution is the Go specification's** (`x.f` denotes the field or method at the
+    shallowest depth, which must be unique; otherwise the selector is illegal): methods against
+    methods, fields against fields, fields against methods, promotion through embedded fields only,
+    ambiguity rejection — for every declaration set, every type and every name, without side
+    condition, for every fact value satisfying `selFacts` (F04, F05-1, F05-2, F05-3, F05-17 repaired). -/
+theorem select_eq_spec (F : Facts) (hF : selFacts F) (D : Decls) (t : Nat) (x : String) :
+    selectY F D t x = select D t x := by
+  obtain ⟨hP, hA, hE, hFP, hK, hFA⟩ := hF
   have hM := lookup_eq_spec F hP hA D t x
   unfold selMethodY selectMethod at hM
   unfold selectY select occs lookupFieldY focc
   rw [lookupFieldF_eq_firstMin F hE hFP D, hK]
-  unfold selDom fieldTie at h
-  unfold focc at h
   cases hf : firstMinBy (fun (h : FHit) => h.path.length) (foccF D D.length t x) with
   | none =>
     rw [firstMinBy_none' _ _ hf]
     simp only [List.map_nil, List.nil_append]
     exact hM
   | some fh =>
-    rw [hf] at h
     obtain ⟨hfmem, hfmin⟩ := firstMinBy_spec _ _ fh hf
     have hfmin' : ∀ b ∈ foccF D D.length t x, fh.depth ≤ b.depth := by
       intro b hb; have := hfmin b hb; simp only [FHit.depth]; omega
@@ -162,28 +162,32 @@ theorem select_eq_spec_partial (F : Facts) (hF : selFacts F) (D : Decls) (t : Na
       unfold countAt
       apply List.length_pos_of_mem (a := fh.depth)
       exact List.mem_filter.mpr ⟨List.mem_map.mpr ⟨fh, hfmem, rfl⟩, by simp⟩
+    have hfd : fh.path.length - 1 = fh.depth := rfl
+    -- the second half of the ambiguity condition: more than one field at the depth of the field found
+    have htie : fieldTieY F D t x fh = decide (countAt fh.depth ((foccF D D.length t x).map FHit.depth) > 1) := by
+      unfold fieldTieY
+      rw [hFA, hfd, fieldCount_is_count D t x fh.depth (foccF_depth_lt D x _ t fh hfmem)]
+      rfl
     rw [lookup_is_first_shallowest F hP] at hM ⊢
     cases hm : firstMinBy (fun (h : MHit) => h.path.length) (mocc D t x) with
     | none =>
-      -- no method of that name: the field, which the domain makes the only one at its depth
-      rw [hm] at h
+      -- no method of that name: the field, unless another field stands at its depth
       rw [firstMinBy_none' _ _ hm]
       simp only [List.map_nil, List.append_nil]
       rw [pick_of_min _ (fh.depth, Sel.field fh) hfe
         (by intro y hy; obtain ⟨r, hr, rfl⟩ := List.mem_map.mp hy; exact hfmin' r hr),
-        filter_length_countAt (fun h => (h.depth, Sel.field h)) FHit.depth (fun _ => rfl)]
-      have : countAt fh.depth ((foccF D D.length t x).map FHit.depth) = 1 := by
-        simp only [Bool.and_true, Bool.not_eq_true', decide_eq_false_iff_not] at h
-        omega
-      simp [this]
+        filter_length_countAt (fun h => (h.depth, Sel.field h)) FHit.depth (fun _ => rfl), htie]
+      by_cases h1 : countAt fh.depth ((foccF D D.length t x).map FHit.depth) = 1
+      · simp [h1]
+      · have : countAt fh.depth ((foccF D D.length t x).map FHit.depth) > 1 := by omega
+        simp [h1, this]
     | some mh =>
-      rw [hm] at h hM
+      rw [hm] at hM
       obtain ⟨hmmem, hmmin⟩ := firstMinBy_spec _ _ mh hm
       have hmmin' : ∀ b ∈ mocc D t x, mh.depth ≤ b.depth := hmmin
       have hme : (mh.depth, Sel.method mh) ∈ (mocc D t x).map (fun h => (h.depth, Sel.method h)) :=
         List.mem_map.mpr ⟨mh, hmmem, rfl⟩
       simp only
-      have hfd : fh.path.length - 1 = fh.depth := rfl
       rw [hfd]
       by_cases hlt : mh.depth < fh.depth
       · -- the method is strictly shallower than every field: the Go rule on the methods alone
@@ -209,7 +213,7 @@ theorem select_eq_spec_partial (F : Facts) (hF : selFacts F) (D : Decls) (t : Na
       · rw [if_neg hlt]
         by_cases heq : mh.depth = fh.depth
         · -- same depth: ambiguous under both rules
-          rw [if_pos heq]
+          simp only [heq, decide_true, Bool.true_or, if_true]
           rw [pick_of_min _ (fh.depth, Sel.field fh) (List.mem_append_left _ hfe)
             (by
               intro y hy
@@ -228,9 +232,9 @@ theorem select_eq_spec_partial (F : Facts) (hF : selFacts F) (D : Decls) (t : Na
               exact List.mem_filter.mpr ⟨List.mem_map.mpr ⟨mh, hmmem, heq⟩, by simp⟩
             omega
           rw [if_neg (by omega)]
-        · -- the field is strictly shallower than every method; the domain makes it the only one
-          rw [if_neg heq]
+        · -- the field is strictly shallower than every method: the field, unless another field stands at its depth
           have hgt : fh.depth < mh.depth := by omega
+          simp only [heq, decide_false, Bool.false_or]
           rw [pick_of_min _ (fh.depth, Sel.field fh) (List.mem_append_left _ hfe)
             (by
               intro y hy
@@ -245,24 +249,15 @@ theorem select_eq_spec_partial (F : Facts) (hF : selFacts F) (D : Decls) (t : Na
             have := hmmin' r hr
             simp only [beq_eq_false_iff_ne, ne_eq]; omega
           rw [hnone, List.append_nil,
-            filter_length_countAt (fun h => (h.depth, Sel.field h)) FHit.depth (fun _ => rfl)]
-          have : countAt fh.depth ((foccF D D.length t x).map FHit.depth) = 1 := by
-            simp only [hgt, decide_true, Bool.and_true, Bool.not_eq_true', decide_eq_false_iff_not] at h
-            omega
-          simp [this]
+            filter_length_countAt (fun h => (h.depth, Sel.field h)) FHit.depth (fun _ => rfl), htie]
+          by_cases h1 : countAt fh.depth ((foccF D D.length t x).map FHit.depth) = 1
+          · simp [h1]
+          · have : countAt fh.depth ((foccF D D.length t x).map FHit.depth) > 1 := by omega
+            simp [h1, this]
 
 /-- the same for the facts regenerated from the source -/
-theorem select_eq_spec_generated (D : Decls) (t : Nat) (x : String) (h : selDom D t x = true) :
-    selectY Generated.C05.facts D t x = select D t x := select_eq_spec_partial _ selFacts_generated D t x h
-
-/-- a name that is no field anywhere below `t` is in the domain: **method selectors are resolved
-    as in Go without any side condition** (also through the whole selector case) -/
-theorem select_eq_spec_methods (F : Facts) (hF : selFacts F) (D : Decls) (t : Nat) (x : String)
-    (hnf : focc D t x = []) : selectY F D t x = select D t x := by
-  apply select_eq_spec_partial F hF
-  unfold selDom fieldTie
-  rw [hnf]
-  rfl
+theorem select_eq_spec_generated (D : Decls) (t : Nat) (x : String) :
+    selectY Generated.C05.facts D t x = select D t x := select_eq_spec _ selFacts_generated D t x
 
 /-- declaration sets for the selector case: a `func()` field `A.M` and a method `B.M` -/
 def fmDecls : Decls :=
@@ -303,19 +298,23 @@ def tieDecls : Decls :=
     .strct "B" [⟨"nb", .int, 0⟩, ⟨"M", .func, 0⟩] [],
     .strct "S" [⟨"ns", .int, 0⟩, ⟨"A", .emb, 0⟩, ⟨"B", .emb, 1⟩] [] ]
 
-/-- **witness for what `selDom` excludes (F05-17)**: two fields at the same shallowest depth are
-    ambiguous in Go; `lookupField` takes the first, the program runs -/
-theorem select_field_tie_witness :
-    WF tieDecls ∧ select tieDecls 2 "M" = .ambiguous ∧
-    selectY EF tieDecls 2 "M" = .field ⟨0, [1, 1], ⟨"M", .func, 0⟩⟩ ∧ selDom tieDecls 2 "M" = false ∧
+/-- **regression of F05-17**: two fields at the same shallowest depth are ambiguous under both rule
+    sets, the program is rejected; without the `fieldCount` test (before 43e97a5) `lookupField` took
+    the first one and the program ran -/
+example :
+    WF tieDecls ∧ select tieDecls 2 "M" = .ambiguous ∧ selectY EF tieDecls 2 "M" = .ambiguous ∧
     run .go EF tieDecls [.var "v" 2 1, .call (.var "v") "M"] = .reject ∧
-    run .yaegi EF tieDecls [.var "v" 2 1, .call (.var "v") "M"] = .ran [["A.f.M"]] false ∧
-    classify EF tieDecls [.var "v" 2 1, .call (.var "v") "M"] = "ambiguous-field-accepted" := by decide
+    run .yaegi EF tieDecls [.var "v" 2 1, .call (.var "v") "M"] = .reject ∧
+    classify EF tieDecls [.var "v" 2 1, .call (.var "v") "M"] = "in-domain" ∧
+    selectY { EF with fieldAmbiguityCheck := false } tieDecls 2 "M" = .field ⟨0, [1, 1], ⟨"M", .func, 0⟩⟩ ∧
+    run .yaegi { EF with fieldAmbiguityCheck := false } tieDecls [.var "v" 2 1, .call (.var "v") "M"] = .ran [["A.f.M"]] false ∧
+    fieldTie tieDecls 2 "M" = true := by decide
 
-/-- non-vacuity of the domain and of `selFacts`: promoted methods, shadowing, a field and a method
-    of the same name at several relative depths are all inside -/
-example : selFacts EF ∧ selDom f04Decls 3 "M" = true ∧ selDom ambDecls 2 "M" = true ∧ selDom fmDecls 2 "M" = true ∧
-    selDom fmDecls 4 "M" = true ∧ selDom fmDecls 5 "M" = true := by decide
+/-- non-vacuity of `selFacts`, and inputs of every kind — promoted methods, shadowing, a field and a
+    method of the same name at several relative depths, ties — on which both rule sets agree -/
+example : selFacts EF ∧ selectY EF f04Decls 3 "M" = select f04Decls 3 "M" ∧ selectY EF ambDecls 2 "M" = select ambDecls 2 "M" ∧
+    selectY EF fmDecls 2 "M" = select fmDecls 2 "M" ∧ selectY EF fmDecls 4 "M" = select fmDecls 4 "M" ∧
+    selectY EF fmDecls 5 "M" = select fmDecls 5 "M" ∧ selectY EF tieDecls 2 "M" = select tieDecls 2 "M" := by decide
 
 /-! ### method sets -/
 
@@ -436,93 +435,204 @@ theorem methodset_value_witness :
 
 def sigList (ims : List Meth) : List (String × Nat) := ims.map (fun m => (m.name, m.sig))
 
-/-- **completeness of the names-only check**: a type that implements the interface by the Go rules
-    passes `implements()` (as long as `contains` compares names only, which the tie establishes) -/
-theorem implements_complete (F : Facts) (hF : F.containsNamesOnly = true) (D : Decls) (d : DynT) (ims : List Meth)
-    (h : implements D d ims = true) : implementsY F D d.t (sigList ims) = true := by
-  unfold implementsY containsY sigList
-  unfold implements at h
-  rw [List.all_eq_true] at *
-  intro k hk
-  obtain ⟨im, him, rfl⟩ := List.mem_map.mp hk
-  have := h im him
-  rw [List.any_eq_true] at this
-  obtain ⟨m, hm, hms⟩ := this
-  simp only [Bool.and_eq_true, beq_iff_eq] at hms
-  have hn := methodset_complete D d m hm
-  obtain ⟨p, hp, hpn⟩ := List.mem_map.mp hn
-  rw [List.any_eq_true]
-  exact ⟨p, hp, by simp [hF, hpn, hms.1]⟩
+theorem pathViaPtr_eq (D : Decls) : ∀ (p : List Nat) (t : Nat), pathViaPtr D t p = viaPtr D t p := by
+  intro p
+  induction p with
+  | nil => intro t; rfl
+  | cons i rest ih =>
+    intro t
+    unfold pathViaPtr viaPtr
+    cases (fieldsOf D t)[i]? with
+    | none => rfl
+    | some f => simp only [ih]
+
+/-- **what the Go rule selects as a method is what `lookupMethod` finds** (the converse needs the
+    `methodCount` test: `lookup_eq_spec`) -/
+theorem select_method_lookup (F : Facts) (hP : F.methodPick = .shallowest) (D : Decls) (t : Nat) (k : String) (h : MHit)
+    (hs : select D t k = .method h) : lookupMethodY F D t k = some h := by
+  rw [lookup_is_first_shallowest F hP]
+  unfold select occs at hs
+  obtain ⟨o, ho, ho2, hmin, huniq⟩ := pick_unique _ _ hs (by simp) (by simp)
+  -- the selected entry comes from the enumeration of the methods
+  have hom : o = (h.depth, Sel.method h) ∧ h ∈ mocc D t k := by
+    rcases List.mem_append.mp ho with hf | hm
+    · obtain ⟨r, _, rfl⟩ := List.mem_map.mp hf; simp at ho2
+    · obtain ⟨r, hr, rfl⟩ := List.mem_map.mp hm
+      simp only [Sel.method.injEq] at ho2
+      subst ho2
+      exact ⟨rfl, hr⟩
+  obtain ⟨rfl, hmem⟩ := hom
+  cases hm : firstMinBy (fun (h : MHit) => h.path.length) (mocc D t k) with
+  | none => rw [firstMinBy_none' _ _ hm] at hmem; simp at hmem
+  | some h' =>
+    obtain ⟨hmem', hmin'⟩ := firstMinBy_spec _ _ h' hm
+    have he' : (h'.depth, Sel.method h') ∈ (focc D t k).map (fun h => (h.depth, Sel.field h)) ++
+        (mocc D t k).map (fun h => (h.depth, Sel.method h)) :=
+      List.mem_append_right _ (List.mem_map.mpr ⟨h', hmem', rfl⟩)
+    have h1 : h.depth ≤ h'.depth := hmin _ he'
+    have h2 : h'.depth ≤ h.depth := hmin' h hmem
+    have := huniq _ he' (by simp only; omega)
+    simp only [Prod.mk.injEq, Sel.method.injEq] at this
+    rw [this.2]
+
+/-- a method of the Go method set, found through its name -/
+theorem methodSet_mem_select (D : Decls) (d : DynT) (m : Meth) (hm : m ∈ methodSet D d) :
+    ∃ h, select D d.t m.name = .method h ∧ recvOK D d h = true ∧ h.meth = m := by
+  unfold methodSet at hm
+  simp only [List.mem_filterMap] at hm
+  obtain ⟨k, _, hk⟩ := hm
+  cases hs : select D d.t k with
+  | method hh =>
+    simp only [hs] at hk
+    by_cases hr : recvOK D d hh = true
+    · simp only [hr, if_true, Option.some.injEq] at hk
+      have hmem := select_method_mem D d.t k hh hs
+      obtain ⟨hn, _⟩ := moccF_sound D k _ _ hh hmem
+      subst hk
+      rw [hn]
+      exact ⟨hh, hs, hr, rfl⟩
+    · simp [hr] at hk
+  | field _ => simp [hs] at hk
+  | ambiguous => simp [hs] at hk
+  | undefined => simp [hs] at hk
+
+/-- **completeness of `implements()`** (names, and since 79ed061 the receiver kind): a type that
+    implements the interface by the Go rules passes it — value and pointer types, promotion through
+    embedded values and pointers, all declaration sets -/
+theorem implements_complete (F : Facts) (hF : F.containsNamesOnly = true) (hP : F.methodPick = .shallowest)
+    (D : Decls) (d : DynT) (ims : List Meth)
+    (h : implements D d ims = true) : implementsY F D d.t d.ptr (sigList ims) = true := by
+  unfold implementsY
+  have hc : containsY F (methodsY D d.t) (sigList ims) = true := by
+    unfold containsY sigList
+    unfold implements at h
+    rw [List.all_eq_true] at *
+    intro k hk
+    obtain ⟨im, him, rfl⟩ := List.mem_map.mp hk
+    have := h im him
+    rw [List.any_eq_true] at this
+    obtain ⟨m, hm, hms⟩ := this
+    simp only [Bool.and_eq_true, beq_iff_eq] at hms
+    have hn := methodset_complete D d m hm
+    obtain ⟨p, hp, hpn⟩ := List.mem_map.mp hn
+    rw [List.any_eq_true]
+    exact ⟨p, hp, by simp [hF, hpn, hms.1]⟩
+  have hn : needsPtrY F D d.t d.ptr (sigList ims) = false := by
+    unfold needsPtrY
+    cases hdp : d.ptr with
+    | true => rfl
+    | false =>
+      simp only [Bool.not_false, Bool.true_and]
+      rw [Bool.eq_false_iff]
+      intro hany
+      rw [List.any_eq_true] at hany
+      obtain ⟨k, hk, hkk⟩ := hany
+      unfold sigList at hk
+      obtain ⟨im, him, rfl⟩ := List.mem_map.mp hk
+      unfold implements at h
+      have := (List.all_eq_true.mp h) im him
+      rw [List.any_eq_true] at this
+      obtain ⟨m, hm, hms⟩ := this
+      simp only [Bool.and_eq_true, beq_iff_eq] at hms
+      obtain ⟨hh, hs, hr, hme⟩ := methodSet_mem_select D d m hm
+      rw [hms.1] at hs
+      simp only [select_method_lookup F hP D d.t im.name hh hs, pathViaPtr_eq, Bool.and_eq_true, Bool.not_eq_true'] at hkk
+      unfold recvOK at hr
+      simp [hdp, hkk.1, hkk.2] at hr
+  rw [hc, hn]
+  simp
 
 theorem implements_complete_generated (D : Decls) (d : DynT) (ims : List Meth)
-    (h : implements D d ims = true) : implementsY Generated.C05.facts D d.t (sigList ims) = true :=
-  implements_complete _ (by rw [facts_tie]; rfl) D d ims h
+    (h : implements D d ims = true) : implementsY Generated.C05.facts D d.t d.ptr (sigList ims) = true :=
+  implements_complete _ (by rw [facts_tie]; rfl) selFacts_generated.1 D d ims h
 
 /-- the interpreter's and the specification's reading of an interface type (own methods and
     embedded interfaces, to any depth) list the same names -/
 theorem iface_methods_names (D : Decls) (i : Nat) (k : String) :
     k ∈ (ifaceMethodsY D i).map (·.1) ↔ k ∈ (ifaceMethods D i).map (·.name) := iface_names_eq D k _ i
 
-/-- **assignment to a declared interface type**: whatever Go accepts, `implements()` accepts
-    (embedded interfaces included) -/
-theorem implements_iface_complete (F : Facts) (hF : F.containsNamesOnly = true) (D : Decls) (d : DynT) (i : Nat)
-    (h : implements D d (ifaceMethods D i) = true) : implementsY F D d.t (ifaceMethodsY D i) = true := by
-  unfold implementsY containsY
-  unfold implements at h
-  rw [List.all_eq_true] at *
-  intro k hk
-  have hkn : k.1 ∈ (ifaceMethodsY D i).map (·.1) := List.mem_map.mpr ⟨k, hk, rfl⟩
-  obtain ⟨im, him, hin⟩ := List.mem_map.mp ((iface_methods_names D i k.1).mp hkn)
-  have := h im him
-  rw [List.any_eq_true] at this
-  obtain ⟨m, hm, hms⟩ := this
-  simp only [Bool.and_eq_true, beq_iff_eq] at hms
-  have hn := methodset_complete D d m hm
-  obtain ⟨p, hp, hpn⟩ := List.mem_map.mp hn
-  rw [List.any_eq_true]
-  refine ⟨p, hp, ?_⟩
-  simp only [hF, Bool.true_or, Bool.and_true, beq_iff_eq]
-  rw [hpn, hms.1, hin]
+/-- every interface method name is selected by the Go rule as a method of `t` or is not a method
+    name below `t` at all (not ambiguous, not hidden by a field) -/
+def namesResolved (D : Decls) (t : Nat) (ims : List Meth) : Bool :=
+  ims.all (fun im => (mocc D t im.name).isEmpty || (match select D t im.name with | .method _ => true | _ => false))
 
-/-- every method of the type's method set that the interface names has the interface's signature -/
-def sigAgree (D : Decls) (d : DynT) (ims : List Meth) : Bool :=
-  ims.all (fun im => (methodSet D d).all (fun m => m.name != im.name || m.sig == im.sig))
+/-- the method the Go rule selects for each interface method has the interface's signature -/
+def sigAgree (D : Decls) (t : Nat) (ims : List Meth) : Bool :=
+  ims.all (fun im => match select D t im.name with | .method h => h.meth.sig == im.sig | _ => true)
 
-/-- **soundness of the names-only check** on the domain where `methods()` is the method set
-    (`msDom`) and signatures agree (`sigAgree`) -/
-theorem implements_sound_partial (F : Facts) (D : Decls) (d : DynT) (ims : List Meth)
-    (hd : msDom D d = true) (hs : sigAgree D d ims = true)
-    (h : implementsY F D d.t (sigList ims) = true) : implements D d ims = true := by
-  unfold implementsY containsY sigList at h
+/-- **soundness of `implements()` with the receiver kind** (79ed061): on the domain where the names
+    resolve unambiguously (`namesResolved`) and signatures agree (`sigAgree`) — what is left of F05-7,
+    now F05-20 — a type that passes it implements the interface by the Go rules: the pointer-receiver
+    rule for values, promotion through embedded pointers included, is the specification's -/
+theorem implements_sound_partial (F : Facts) (hR : F.implementsChecksRecv = true) (hP : F.methodPick = .shallowest)
+    (D : Decls) (d : DynT) (ims : List Meth)
+    (hd : namesResolved D d.t ims = true) (hs : sigAgree D d.t ims = true)
+    (h : implementsY F D d.t d.ptr (sigList ims) = true) : implements D d ims = true := by
+  unfold implementsY at h
+  simp only [hR, Bool.true_and, Bool.and_eq_true, Bool.not_eq_true'] at h
+  obtain ⟨hc, hn⟩ := h
+  unfold containsY sigList at hc
   unfold implements
+  unfold namesResolved at hd
   unfold sigAgree at hs
   rw [List.all_eq_true] at *
   intro im him
-  have := h (im.name, im.sig) (List.mem_map.mpr ⟨im, him, rfl⟩)
+  have := hc (im.name, im.sig) (List.mem_map.mpr ⟨im, him, rfl⟩)
   rw [List.any_eq_true] at this
   obtain ⟨p, hp, hpk⟩ := this
   simp only [Bool.and_eq_true, beq_iff_eq] at hpk
-  have hn : im.name ∈ (methodsY D d.t).map (·.1) := List.mem_map.mpr ⟨p, hp, hpk.1⟩
-  obtain ⟨m, hm, hmn⟩ := List.mem_map.mp ((methodset_correct_partial D d hd im.name).mp hn)
-  have hsg := (List.all_eq_true.mp (hs im him)) m hm
-  rw [List.any_eq_true]
-  refine ⟨m, hm, ?_⟩
-  simp only [Bool.or_eq_true, bne_iff_ne, ne_eq, beq_iff_eq] at hsg
-  rcases hsg with h1 | h1
-  · exact absurd hmn h1
-  · simp [hmn, h1]
+  have hne : mocc D d.t im.name ≠ [] :=
+    (methods_names_reachable D d.t im.name).mp (List.mem_map.mpr ⟨p, hp, hpk.1⟩)
+  have hres := hd im him
+  simp only [Bool.or_eq_true, List.isEmpty_iff] at hres
+  rcases hres with hres | hres
+  · exact absurd hres hne
+  · cases hsel : select D d.t im.name with
+    | method hh =>
+      have hlook := select_method_lookup F hP D d.t im.name hh hsel
+      have hmem := select_method_mem D d.t im.name hh hsel
+      obtain ⟨hname, _⟩ := moccF_sound D im.name _ _ hh hmem
+      -- the receiver rule
+      have hrecv : recvOK D d hh = true := by
+        unfold recvOK
+        cases hdp : d.ptr with
+        | true => rfl
+        | false =>
+          unfold needsPtrY at hn
+          simp only [hdp, Bool.not_false, Bool.true_and] at hn
+          have := (List.any_eq_false.mp hn) (im.name, im.sig) (List.mem_map.mpr ⟨im, him, rfl⟩)
+          simp only [hlook, pathViaPtr_eq] at this
+          cases hmp : hh.meth.ptr <;> cases hvp : viaPtr D d.t hh.path <;> simp_all
+      have hsig := hs im him
+      simp only [hsel, beq_iff_eq] at hsig
+      rw [List.any_eq_true]
+      refine ⟨hh.meth, ?_, by simp [hname, hsig]⟩
+      unfold methodSet
+      simp only [List.mem_filterMap]
+      exact ⟨im.name, mocc_ne_nil_mem_allNames D d.t im.name hne, by simp [hsel, hrecv]⟩
+    | field _ => simp [hsel] at hres
+    | ambiguous => simp [hsel] at hres
+    | undefined => simp [hsel] at hres
 
-/-- **witness**: the interface wants `Get() int`, the type has `Get()`: accepted by name -/
+/-- **witness (F05-20)**: the interface wants `Get() int`, the type has `Get()`: accepted by name -/
 theorem implements_signature_witness :
-    implementsY EF msDecls 0 (sigList [⟨"Get", false, 1⟩]) = true ∧
+    implementsY EF msDecls 0 true (sigList [⟨"Get", false, 1⟩]) = true ∧
     implements msDecls ⟨0, true⟩ [⟨"Get", false, 1⟩] = false ∧
-    sigAgree msDecls ⟨0, true⟩ [⟨"Get", false, 1⟩] = false := by decide
+    sigAgree msDecls 0 [⟨"Get", false, 1⟩] = false := by decide
 
-/-- **witness**: a value of `T` is accepted for an interface that needs the pointer method `Inc` -/
-theorem implements_receiver_witness :
-    implementsY EF msDecls 0 (sigList [⟨"Inc", false, 0⟩]) = true ∧
+/-- **regression of F05-7** (its receiver half): a value of `T` is rejected for an interface that needs
+    the pointer method `Inc`, `*T` and a value of `P` (which embeds `*T`) are accepted — as in Go;
+    without the receiver test (before 79ed061) the value of `T` was accepted -/
+example :
+    implementsY EF msDecls 0 false (sigList [⟨"Inc", false, 0⟩]) = false ∧
     implements msDecls ⟨0, false⟩ [⟨"Inc", false, 0⟩] = false ∧
-    implements msDecls ⟨0, true⟩ [⟨"Inc", false, 0⟩] = true := by decide
+    implementsY EF msDecls 0 true (sigList [⟨"Inc", false, 0⟩]) = true ∧
+    implements msDecls ⟨0, true⟩ [⟨"Inc", false, 0⟩] = true ∧
+    implementsY EF msDecls 2 false (sigList [⟨"Inc", false, 0⟩]) = true ∧
+    implements msDecls ⟨2, false⟩ [⟨"Inc", false, 0⟩] = true ∧
+    implementsY EF msDecls 1 false (sigList [⟨"Inc", false, 0⟩]) = false ∧
+    implementsY { EF with implementsChecksRecv := false } msDecls 0 false (sigList [⟨"Inc", false, 0⟩]) = true ∧
+    namesResolved msDecls 0 [⟨"Inc", false, 0⟩] = true ∧ sigAgree msDecls 0 [⟨"Inc", false, 0⟩] = true := by decide
 
 /-! ### type switches -/
 
@@ -600,17 +710,16 @@ theorem typeswitch_chain_witness :
 
 /-- **a method call on a variable, a pointer or `&v`** is accepted or rejected, and executed
     (same method, same receiver storage, same output, same state), identically under the
-    interpreter's rules and under Go's whenever the selector is in `selDom` and both steps of the
-    receiver binding copy a value receiver (`bindCopies`, the extracted values) — for every
-    declaration set, environment and state -/
-theorem call_agrees_partial (F : Facts) (hF : selFacts F) (hb : bindCopies F) (D : Decls) (e : SEnv) (s : St)
+    interpreter's rules and under Go's when the selector facts and the receiver binding have the
+    extracted values (`selFacts`, `bindCopies`: both steps copy a value receiver) — for every
+    declaration set, environment and state, every method or field name -/
+theorem call_agrees (F : Facts) (hF : selFacts F) (hb : bindCopies F) (D : Decls) (e : SEnv) (s : St)
     (r : Recv) (m : String) (t : Nat)
     (hr : recvStatic e r = some (t, true))
-    (hdyn : ∀ t' i s1, recvInst D s r = some (t', i, s1) → t' = t)
-    (h : selDom D t m = true) :
+    (hdyn : ∀ t' i s1, recvInst D s r = some (t', i, s1) → t' = t) :
     checkStmt .yaegi F D e (.call r m) = checkStmt .go F D e (.call r m) ∧
     execStmt .yaegi F D e s (.call r m) = execStmt .go F D e s (.call r m) := by
-  have hsel : selectY F D t m = select D t m := select_eq_spec_partial F hF D t m h
+  have hsel : selectY F D t m = select D t m := select_eq_spec F hF D t m
   cases r with
   | ifc i => simp [recvStatic] at hr
   | nil => simp [recvStatic] at hr
@@ -651,16 +760,15 @@ theorem call_agrees_partial (F : Facts) (hF : selFacts F) (hb : bindCopies F) (D
 
 /-- **a method value binds its receiver when it is evaluated (F05 repaired)**: `g := r.m` is accepted
     or rejected and executed identically — the same closure over the same bound receiver, a copy for a
-    value receiver — when the receiver is read at creation (`atCreation`, since 3081633), the binding
-    copies and the selector is in `selDom`; every declaration set, environment and state -/
-theorem mval_agrees_partial (F : Facts) (hF : selFacts F) (hb : bindCopies F) (hc : F.recvBind.atCreation = true)
+    value receiver — when the receiver is read at creation (`atCreation`, since 3081633) and the binding
+    copies; every declaration set, environment and state -/
+theorem mval_agrees (F : Facts) (hF : selFacts F) (hb : bindCopies F) (hc : F.recvBind.atCreation = true)
     (D : Decls) (e : SEnv) (s : St) (x : String) (r : Recv) (m : String) (t : Nat)
     (hr : recvStatic e r = some (t, true))
-    (hdyn : ∀ t' i s1, recvInst D s r = some (t', i, s1) → t' = t)
-    (h : selDom D t m = true) :
+    (hdyn : ∀ t' i s1, recvInst D s r = some (t', i, s1) → t' = t) :
     checkStmt .yaegi F D e (.mval x r m) = checkStmt .go F D e (.mval x r m) ∧
     execStmt .yaegi F D e s (.mval x r m) = execStmt .go F D e s (.mval x r m) := by
-  have hsel : selectY F D t m = select D t m := select_eq_spec_partial F hF D t m h
+  have hsel : selectY F D t m = select D t m := select_eq_spec F hF D t m
   cases r with
   | ifc i => simp [recvStatic] at hr
   | nil => simp [recvStatic] at hr
@@ -1037,14 +1145,15 @@ example :
      run .go EF wDecls p = .ran [["W.Get", "2"]] false ∧ run .yaegi EF wDecls p = run .go EF wDecls p ∧
      classify EF wDecls p = "in-domain" ∧ run .yaegi OF wDecls p = .ran [["W.Get", "12"]] false) := by decide
 
-/-- a pointer method called on a function result / a value of `W` assigned to `interface{ Inc() }`:
-    rejected by Go, accepted by the interpreter (F05-4, F05-7) -/
+/-- a pointer method called on a function result: rejected by Go (the operand is not addressable),
+    accepted by the interpreter (F05-4). A value of `W` assigned to `interface{ Inc() }` is rejected
+    under both rule sets since 79ed061 (regression of F05-7). -/
 theorem pointer_method_on_value_witness :
     run .go EF wDecls [.call (.tmp 0 1) "Inc"] = .reject ∧
     run .yaegi EF wDecls [.call (.tmp 0 1) "Inc"] = .ran [["W.Inc", "2"]] false ∧
+    classify EF wDecls [.call (.tmp 0 1) "Inc"] = "pointer-method-on-value" ∧
     run .go EF wDecls [.var "v" 0 1, .iface "i" (some 3) (.var "v"), .call (.ifc "i") "Inc", .dump "v"] = .reject ∧
-    run .yaegi EF wDecls [.var "v" 0 1, .iface "i" (some 3) (.var "v"), .call (.ifc "i") "Inc", .dump "v"]
-      = .ran [["W.Inc", "2"], ["v", "1"]] false := by decide
+    run .yaegi EF wDecls [.var "v" 0 1, .iface "i" (some 3) (.var "v"), .call (.ifc "i") "Inc", .dump "v"] = .reject := by decide
 
 /-- method expressions work only for a method declared on the type itself with the same kind of
     receiver: `(*V).Get(&v)` (promoted, value receiver) fails at run time -/
@@ -1075,6 +1184,39 @@ example :
     classify EF wDecls [.iface "i" (some 2) .nil, .assert "j" "i" (.named 3) true ""] = "in-domain" ∧
     classify EF wDecls [.var "v" 0 1, .iface "i" (some 2) (.var "v"), .assert "j" "i" (.anon [⟨"Put", false, 0⟩]) false ""]
       = "in-domain" := by decide
+
+/-- `B{nb}` with the pointer method `Put`; `C` embeds `B` by value, `Cp` embeds `*B`; `IP = interface{ Put() }` -/
+def impDecls : Decls :=
+  [ .strct "B" [⟨"nb", .int, 0⟩] [⟨"Put", true, 0⟩],
+    .strct "C" [⟨"nc", .int, 0⟩, ⟨"B", .emb, 0⟩] [],
+    .strct "Cp" [⟨"ncp", .int, 0⟩, ⟨"B", .embPtr, 0⟩] [],
+    .iface "IP" [⟨"Put", false, 0⟩] [] ]
+
+/-- **witness (F05-21)**: the static check of `i.(C)` / `case C:` rejects a pointer-receiver method only
+    when it is declared on the type itself: `C{B}` with `(*B).Put` cannot hold in an `interface{ Put() }`
+    (Go: impossible type assertion / switch case), the interpreter accepts both statements.
+    `Cp{*B}` implements the interface: accepted under both rule sets (regression of F05-11; with the
+    test as it was before 5c3b0c5 the interpreter rejected it), and a type switch with an impossible
+    case of a type that lacks the method is rejected under both (regression of F05-12). -/
+theorem assert_impossible_check_witness :
+    WF impDecls ∧
+    assertLegalY EF impDecls (.named 3) (.named 1) = true ∧ assertLegal impDecls (tyMethods impDecls (.named 3)) (.named 1) = false ∧
+    run .go EF impDecls [.var "v" 1 1, .iface "i" (some 3) (.addr "v"), .assert "j" "i" (.named 1) true ""] = .reject ∧
+    run .yaegi EF impDecls [.var "v" 1 1, .iface "i" (some 3) (.addr "v"), .assert "j" "i" (.named 1) true ""]
+      = .ran [["ok", "false"]] false ∧
+    run .go EF impDecls [.var "v" 1 1, .iface "i" (some 3) (.addr "v"), .tswitch "i" false [[.named 1], []]] = .reject ∧
+    run .yaegi EF impDecls [.var "v" 1 1, .iface "i" (some 3) (.addr "v"), .tswitch "i" false [[.named 1], []]]
+      = .ran [["case", "1"]] false ∧
+    classify EF impDecls [.var "v" 1 1, .iface "i" (some 3) (.addr "v"), .assert "j" "i" (.named 1) true ""] = "assert-impossible-check" ∧
+    classify EF impDecls [.var "v" 1 1, .iface "i" (some 3) (.addr "v"), .tswitch "i" false [[.named 1], []]] = "tswitch-impossible-case" ∧
+    assertLegalY EF impDecls (.named 3) (.named 2) = true ∧ assertLegal impDecls (tyMethods impDecls (.named 3)) (.named 2) = true ∧
+    assertLegalY { EF with assertPtrOwnOnly := false } impDecls (.named 3) (.named 2) = false ∧
+    run .yaegi EF impDecls [.var "v" 2 1, .iface "i" (some 3) (.var "v"), .assert "j" "i" (.named 2) true ""]
+      = run .go EF impDecls [.var "v" 2 1, .iface "i" (some 3) (.var "v"), .assert "j" "i" (.named 2) true ""] ∧
+    run .go EF impDecls [.var "v" 2 1, .iface "i" (some 3) (.var "v"), .tswitch "i" false [[.named 0], []]] = .reject ∧
+    run .yaegi EF impDecls [.var "v" 2 1, .iface "i" (some 3) (.var "v"), .tswitch "i" false [[.named 0], []]] = .reject ∧
+    run .yaegi { EF with tswitchCasesChecked := false } impDecls [.var "v" 2 1, .iface "i" (some 3) (.var "v"), .tswitch "i" false [[.named 0], []]]
+      = .ran [["case", "1"]] false := by decide
 
 /-- type switches: on an operand of non-empty interface type neither an interface clause nor
     `case nil` ever matches; on an `interface{}` operand holding a wrapped value every interface
